@@ -113,6 +113,8 @@ struct Net {
     /// 'aged' sessions: the message layer's packet counters start at 2^40 (as after a very long session), so full slices make
     /// datagrams of up to 1236 bytes
     aged: bool,
+    /// RV_DEBUG: per-tick state on stderr (replaying a case by hand)
+    debug: bool,
     /// the server's part of the next tick is given this duration instead of the tick length (a frame that took very long)
     server_dt_once: Option<Duration>,
     timeout_s: u64,
@@ -514,7 +516,7 @@ impl Net {
             }
             return Err(Fail::new("server_transport_error", e.to_string()).sig("harness_io"));
         }
-        if std::env::var("RV_DEBUG").is_ok() {
+        if self.debug {
             for c in self.clients.iter() {
                 eprintln!("tick {} id {} held={:?} since={:?} client_connected={} raw_up={} hist_up={} hist_down={}", self.tick, c.id, self.st.client_addr(c.id), self.st.time_since_last_received_packet(c.id), c.client.is_connected(), c.raw_up.len(), c.hist_up.len(), c.hist_down.len());
             }
@@ -667,6 +669,7 @@ impl Property for C20 {
             gentle,
             unsecure,
             aged,
+            debug: std::env::var("RV_DEBUG").is_ok(),
             server_dt_once: None,
             timeout_s,
             tick_ms,
@@ -702,10 +705,6 @@ impl Property for C20 {
         while !ctx.src.exhausted() && ops < max_ops {
             ops += 1;
             let w: [u32; 11] = if gentle { [60, 30, 4, 0, 0, 0, 0, 0, 0, 2, 2] } else { [60, 30, 4, 3, 3, 1, 3, 3, 3, 2, 2] };
-            let kind_dbg = ctx.src.clone().weighted(&w);
-            if std::env::var("RV_DEBUG").is_ok() {
-                eprintln!("op kind {kind_dbg} at tick {}", net.tick);
-            }
             let op = match ctx.src.weighted(&w) {
                 0 => {
                     net.do_tick(ctx)?;
